@@ -139,6 +139,20 @@ pub fn exec(prop: &str, case: &Case) -> Outcome {
                 detail: serde_json::Value::Null,
             }
         }
+        ("C06", Case::FromIter(fc)) => {
+            let run = crate::multi::run_from_iter(fc);
+            let violation = crate::multi::check_from_iter(fc, &run);
+            let rejected = !run.result.is_ok();
+            Outcome {
+                digest: run.digest,
+                nontrivial: rejected,
+                violation,
+                explicit: case.clone(),
+                tags: vec![("history.rejected_calls", rejected as u64), ("history.from_iter_calls", 1)],
+                steps: 1 + run.pulled as u64,
+                detail: serde_json::Value::Null,
+            }
+        }
         ("C11", Case::Build(bc)) => {
             let run = run_build(bc);
             // the fault-free twin is the same for every fault position of a
